@@ -49,13 +49,18 @@ func vNode() (*node.Node, func()) {
 	}
 	srv := httptest.NewServer(http.HandlerFunc(func(w http.ResponseWriter, r *http.Request) {
 		w.Header().Set("Content-Type", "application/json")
+		// the client refuses a response whose id is not the id of its request
+		var req struct {
+			ID json.RawMessage `json:"id"`
+		}
+		json.NewDecoder(r.Body).Decode(&req)
 		if zz.GetEnv("txindex.contains") {
-			res := map[string]interface{}{"jsonrpc": "2.0", "id": "jsonrpc-client", "result": map[string]interface{}{
+			res := map[string]interface{}{"jsonrpc": "2.0", "id": req.ID, "result": map[string]interface{}{
 				"hash": "00", "height": "1", "index": 0, "tx_result": map[string]interface{}{}, "tx": ""}}
 			json.NewEncoder(w).Encode(res)
 			return
 		}
-		json.NewEncoder(w).Encode(map[string]interface{}{"jsonrpc": "2.0", "id": "jsonrpc-client", "error": map[string]interface{}{"code": -32603, "message": "Internal error", "data": "tx not found"}})
+		json.NewEncoder(w).Encode(map[string]interface{}{"jsonrpc": "2.0", "id": req.ID, "error": map[string]interface{}{"code": -32603, "message": "Internal error", "data": "tx not found"}})
 	}))
 	n := &node.Node{}
 	cfg := tmcfg.DefaultConfig()
